@@ -594,6 +594,10 @@ func (fr *frame) unop(instr *ssa.UnOp, x value) value {
 			return tt.Un(OpNeg, x)
 		}
 	case token.MUL:
+		if ref, ok := x.(*symRef); ok {
+			// concrete integer tables need the element width: lift through the static type
+			return fr.loadSymRefTyped(ref, deref(instr.X.Type()))
+		}
 		p := x.(*value)
 		if p == nil {
 			rtPanic("invalid memory address or nil pointer dereference")
@@ -1293,4 +1297,24 @@ func (ex *Exec) decodeRune(b []*Term) (value, int) {
 		return simp(or(or(or(sh(and(z32(b0), 0x07), 18), sh(and(z32(b[1]), 0x3F), 12)), sh(and(z32(b[2]), 0x3F), 6)), and(z32(b[3]), 0x3F))), 4
 	}
 	return bad()
+}
+
+// loadSymRefTyped is loadSymRef with the element type known, so that tables of concrete integers can be merged.
+func (fr *frame) loadSymRefTyped(ref *symRef, t types.Type) value {
+	if isInteger(t) {
+		w := fr.sz.bits(t)
+		vals := make([]value, len(ref.cells))
+		for i, c := range ref.cells {
+			switch v := (*c).(type) {
+			case uint64:
+				vals[i] = fr.ex.tt.BV(v, w)
+			default:
+				vals[i] = v
+			}
+		}
+		if v, ok := fr.ex.mergeByIndex(ref.idx, vals); ok {
+			return v
+		}
+	}
+	return fr.ex.loadSymRef(ref)
 }
